@@ -563,9 +563,15 @@ class Engine:
             from . import theory as _T
             if v.s in _T.PROBLEM:
                 return vint(_T.PROBLEM[v.s])
+        if isinstance(v, _PyList) and isinstance(ty, TList):
+            arr = z3.Const(fresh_name("lit"), z3.ArraySort(I, ty.elem.sort()))
+            for i_, x in enumerate(v.items):
+                arr = z3.Store(arr, i_, self.coerce(x, ty.elem, st).t)
+            return Val(ty, ty.mk(z3.IntVal(len(v.items)), arr))
         if isinstance(v, _PyTuple) and isinstance(ty, TTuple):
             return Val(ty, ty.mk(*[self.coerce(x, e, st).t for x, e in zip(v.items, ty.elems)]))
         if isinstance(v.ty, TOpt) and v.ty.elem == ty:
+            self.oblige(st, "optional_value_is_not_none", z3.Not(v.ty.is_none(v.t)), 0, kind="safety")
             return Val(ty, v.ty.val(v.t))
         raise OutOfSubset(f"cannot use {v.ty} where {ty} is expected")
 
@@ -652,7 +658,10 @@ class Engine:
         if not e.elts:
             return Val(TEmpty("list"), None)
         items = [self.ev(x, st) for x in e.elts]
-        items = [x if not isinstance(x, _PyTuple) else self.tuple_val(x, st) for x in items]
+        try:
+            items = [x if not isinstance(x, _PyTuple) else self.tuple_val(x, st) for x in items]
+        except OutOfSubset:
+            return _PyList(items)      # components not typed yet (e.g. a None): typed when it meets a declared type
         ty = TList(items[0].ty)
         arr = z3.Const(fresh_name("lit"), z3.ArraySort(I, items[0].ty.sort()))
         for i, x in enumerate(items):
